@@ -24,6 +24,8 @@ pub struct Lim {
     pub a: usize,
     pub b: usize,
     pub r: usize,
+    pub l: usize,
+    pub lr: usize,
     pub ovf_req: bool,
     pub ovf_resp: bool,
     pub ff: bool,
@@ -32,6 +34,8 @@ pub struct Lim {
 #[derive(Clone, Debug, PartialEq, Eq)]
 pub enum Obs {
     Sent { ok: bool, nconn: usize },
+    /// send_copy needs a loan and the user holds all of them
+    SentNoLoan,
     Req(Option<Rid>),
     ReqErrBorrows,
     Resp(Option<(Rid, Pid)>),
@@ -111,6 +115,10 @@ pub struct ClientM {
     /// discovered servers that were dropped since; the client notices on its next receive, and
     /// until a receive has found nothing left from them `is_connected` is not determined
     pub ghosts: Vec<Uid>,
+    /// a pending response was dropped while responses were still buffered for it
+    pub garbage: bool,
+    /// request loans the user holds
+    pub loans: usize,
 }
 
 #[derive(Clone, Debug, PartialEq, Eq, PartialOrd, Ord, Hash)]
@@ -118,6 +126,8 @@ pub struct ActM {
     pub rid: Rid,
     /// a response was sent after the pending response was dropped (frontier diversification)
     pub stale_sent: bool,
+    /// response loans the user holds
+    pub loans: usize,
 }
 
 #[derive(Clone, Debug, PartialEq, Eq, PartialOrd, Ord, Hash)]
@@ -145,7 +155,7 @@ impl Spec {
     }
 
     pub fn create_client(&mut self, idx: usize, uid: Uid) {
-        self.clients[idx] = Some(ClientM { uid, pend: Vec::new(), sent: 0, known: Vec::new(), ghosts: Vec::new() });
+        self.clients[idx] = Some(ClientM { uid, pend: Vec::new(), sent: 0, known: Vec::new(), ghosts: Vec::new(), garbage: false, loans: 0 });
         self.discover(idx);
     }
 
@@ -188,13 +198,22 @@ impl Spec {
 
     // ---------------------------------------------------------------- requests
 
-    pub fn send_request(&self, lim: &Lim, c: usize, rid: Rid) -> Vec<(Obs, Spec)> {
+    /// `from_loan`: the request was loaned before (the loan is used up whatever the outcome);
+    /// otherwise the send loans by itself
+    pub fn send_request(&self, lim: &Lim, c: usize, rid: Rid, from_loan: bool) -> Vec<(Obs, Spec)> {
         let cl = self.clients[c].as_ref().expect("client");
+        if !from_loan && cl.loans >= lim.l {
+            return vec![(Obs::SentNoLoan, self.clone())];
+        }
+        let mut n = self.clone();
+        if from_loan {
+            let l = &mut n.clients[c].as_mut().unwrap().loans;
+            *l = l.saturating_sub(1);
+        }
         if cl.pend.len() >= lim.a {
-            return vec![(Obs::Sent { ok: false, nconn: 0 }, self.clone())];
+            return vec![(Obs::Sent { ok: false, nconn: 0 }, n)];
         }
         let cuid = cl.uid;
-        let mut n = self.clone();
         n.discover(c);
         let mut links = BTreeMap::new();
         let mut evicted: Vec<(Uid, Rid)> = Vec::new();
@@ -296,7 +315,7 @@ impl Spec {
                     if let Some(l) = n.reqs.get_mut(&rid).and_then(|r| r.links.get_mut(&suid)) {
                         l.st = LinkSt::Active;
                     }
-                    n.servers[s].as_mut().unwrap().act.push(ActM { rid, stale_sent: false });
+                    n.servers[s].as_mut().unwrap().act.push(ActM { rid, stale_sent: false, loans: 0 });
                     out.push((Obs::Req(Some(rid)), n));
                 }
             }
@@ -309,6 +328,25 @@ impl Spec {
             out.push((if blocked { Obs::ReqErrBorrows } else { Obs::Req(None) }, n));
         }
         out
+    }
+
+    /// `Server::has_requests` (after the server has discovered its clients)
+    pub fn expect_has_requests(&self, lim: &Lim, s: usize) -> Tri {
+        let sv = self.servers[s].as_ref().expect("server");
+        let mut any = false;
+        for q in sv.inq.values() {
+            for r in q {
+                any = true;
+                if self.deliverable(lim, *r) {
+                    return Tri::True;
+                }
+            }
+        }
+        if any {
+            Tri::Any
+        } else {
+            Tri::False
+        }
     }
 
     pub fn classify_unexpected_request(&self, lim: &Lim, s: usize, rid: Rid) -> &'static str {
@@ -466,13 +504,18 @@ impl Spec {
 
     pub fn drop_pending(&mut self, c: usize, k: usize) {
         let p = self.clients[c].as_mut().expect("client").pend.remove(k);
+        let mut garbage = false;
         if let Some(r) = self.reqs.get_mut(&p.rid) {
             r.alive = false;
             r.hint = false;
             for l in r.links.values_mut() {
+                garbage |= !l.fifo.is_empty();
                 l.fifo.clear();
                 l.borrowed = 0;
             }
+        }
+        if garbage {
+            self.clients[c].as_mut().unwrap().garbage = true;
         }
     }
 
@@ -610,6 +653,8 @@ impl Spec {
             "a held active request of a dropped client sent a response (client slot reused)".into()
         } else if !stale.is_empty() {
             "a held active request sent a response after its pending response was dropped (channel reused)".into()
+        } else if self.clients[c].as_ref().map(|c| c.garbage).unwrap_or(false) {
+            "an earlier pending response was dropped with unreceived responses (channel reused)".into()
         } else {
             "no response was sent on a closed stream by a held active request".into()
         }
@@ -673,7 +718,7 @@ impl Spec {
             o.push(SEP);
             if let Some(c) = c {
                 o.push(ur(c.uid));
-                o.push(c.sent as u32);
+                o.push(c.sent as u32 | (c.garbage as u32) << 8 | (c.loans as u32) << 12);
                 o.extend(c.known.iter().map(|u| ur(*u)));
                 o.push(SEP + 7);
                 o.extend(c.ghosts.iter().map(|u| ur(*u)));
@@ -693,7 +738,7 @@ impl Spec {
                 o.push(ur(s.uid));
                 for a in &s.act {
                     o.push(rr(a.rid));
-                    o.push(a.stale_sent as u32);
+                    o.push(a.stale_sent as u32 | (a.loans as u32) << 4);
                 }
                 for (cu, q) in &s.inq {
                     o.push(SEP + 3);
